@@ -20,6 +20,18 @@ CHECKS = {
  "C05": (True, "exhaustive (type,n) enumeration + generated diagonals; dense twin model, exact Thomas-recurrence oracle deciding refuse-vs-solve, exact determinant; proptest + libFuzzer(thorough)",
          "All 36 (type, n<=12) configurations in every run with thousands of generated diagonal contents (zero-rich menus, dominance, constants); the harness's exact recurrence decides whether solve must refuse (panic mentioning 'zero') or return the exact solution; everything else compared with the dense twin.",
          "Trusted: exact rational recurrence/determinant; float refusals asserted only when the f64 recurrence is provably exact (small dyadic intermediates); no accuracy claim for non-dominant float systems.", "5/C05"),
+ "C06": (True, "exhaustive occupancy patterns of small grids x all triplet permutations + model-based insert/overwrite/scale/transpose histories against a BTreeMap model; CSC well-formedness invariant after every step; proptest + libFuzzer(thorough)",
+         "All 640 occupancy patterns of the 3x3/2x3/3x2 grids under every triplet order (<= 5 entries), random shapes up to 8x8, raw-array construction and operation histories; after every construction/step every view (get, to_triplets, to_dense, col_index) and the CSC invariants are compared with the model.",
+         "Trusted: the BTreeMap reference model; inputs respect the documented duplicate-free precondition.", "5/C06"),
+ "C07": (True, "proptest choice-stream PBT over exact rationals: dense reference products, adjoint identity and scaling metamorphic relations; libFuzzer(thorough)",
+         "Hundreds of thousands of random rectangular patterns (incl. empty rows/columns and the empty matrix) with rational entries and vectors; sparse products equal dense products exactly, transpose is the adjoint, scaling commutes.",
+         "Trusted: naive dense products over i128 rationals (polynomial identity testing).", "5/C07"),
+ "C08": (True, "proptest choice-stream PBT: generated systems of every kind x 5 solver entry points; on Ok the true residual is recomputed from a dense copy in double-double against tol + stated drift allowance (largest iterate measured by budget replay); libFuzzer(thorough)",
+         "The implication 'Ok => solved to tolerance, finite, iterations <= budget, budget 0 leaves x untouched' is checked on every generated system for which a solver answers Ok (SPD, indefinite, nonsymmetric, singular, badly scaled, zero rhs, huge guesses).",
+         "Trusted: double-double residual; drift allowance 200(n+2)*eps*(it+1)*(|A|_F*Xmax+|b|), constant calibrated with >100x head-room.", "5/C08"),
+ "C09": (True, "proptest choice-stream PBT: generated well-posed systems (SPD / strictly diagonally dominant), differential against the harness's textbook CG/BiCG/BiCGSTAB for the iteration budget and against a refined dense solve for accuracy; degenerate-start cases on integer data; libFuzzer(thorough)",
+         "Convergence within min(10n+50, 3x textbook count + 15) and agreement with the dense solution within the condition-number bound on every generated well-posed system; exact initial guesses and zero right-hand sides must be accepted with x finite.",
+         "Trusted: the textbook reference solvers as well-posedness filter, reference dense solve with refinement, Frobenius condition estimate; tolerances below the double-precision floor are discarded.", "5/C09"),
 }
 NOT_YET = "check not built yet in this revision of /verif (work in progress); the design for it is in DESIGN.md section 5"
 
